@@ -243,6 +243,7 @@ type callRT struct {
 	ret     chan string // blocking callers: class of the returned error / payload
 	cancel  context.CancelFunc
 	reply   int
+	breply  []byte
 	wr      *writeReq // current gated write
 	retVal  string
 	hasRet  bool
@@ -251,6 +252,9 @@ type callRT struct {
 }
 
 type rig struct {
+	recvOpen   bool // frames were fed since the last barrier
+	recvBefore map[uint64]bool
+	bytesMode bool // SerializeNone with []byte arguments and *[]byte replies (replies alias the decoded frame)
 	cl       *client.Client
 	conn     *simConn
 	calls    []*callRT
@@ -283,21 +287,24 @@ func errClass(err error) string {
 		return "codec"
 	case strings.HasPrefix(err.Error(), "svc-e"):
 		return "svc:" + strings.TrimPrefix(err.Error(), "svc-e")
-	case strings.HasPrefix(err.Error(), "json:") || strings.Contains(err.Error(), "cannot unmarshal") || strings.Contains(err.Error(), "invalid character"):
+	case strings.HasPrefix(err.Error(), "json:") || strings.Contains(err.Error(), "cannot unmarshal") || strings.Contains(err.Error(), "invalid character") || strings.Contains(err.Error(), "is not a *[]byte"):
 		return "decode"
 	default:
 		return "conn"
 	}
 }
 
-func newRig(id string, calls []csmCall) (*rig, error) {
-	r := &rig{conn: newSimConn(), pushCh: make(chan *protocol.Message, 256), byMethod: map[string]*callRT{}, readerUp: true, fed: map[uint64][]csmEvent{}}
+func newRig(id string, calls []csmCall, bytesMode bool) (*rig, error) {
+	r := &rig{bytesMode: bytesMode, conn: newSimConn(), pushCh: make(chan *protocol.Message, 256), byMethod: map[string]*callRT{}, readerUp: true, fed: map[uint64][]csmEvent{}}
 	addr := "peer-" + id
 	simMu.Lock()
 	simConns[addr] = r.conn
 	simMu.Unlock()
 	opt := client.DefaultOption
 	opt.SerializeType = protocol.JSON
+	if bytesMode {
+		opt.SerializeType = protocol.SerializeNone
+	}
 	opt.Heartbeat = false
 	r.cl = client.NewClient(opt)
 	if err := r.cl.Connect("vsim", addr); err != nil {
@@ -367,23 +374,29 @@ func (r *rig) start(id string, i int) {
 	hookRigsMu.Unlock()
 	ctx, cancel := context.WithCancel(context.Background())
 	rt.cancel = cancel
+	var arg interface{} = rt.arg
+	var replyPtr interface{} = &rt.reply
+	if r.bytesMode {
+		arg = []byte(strconv.Itoa(i))
+		replyPtr = &rt.breply
+	}
 	switch rt.spec.kind {
 	case 'G':
-		var reply interface{} = &rt.reply
+		reply := replyPtr
 		if rt.spec.oneway {
 			reply = nil
 		}
-		r.cl.Go(ctx, "Svc", method, rt.arg, reply, rt.done)
+		r.cl.Go(ctx, "Svc", method, arg, reply, rt.done)
 	case 'C':
 		go func() {
 			var err error
 			if rt.spec.oneway {
-				err = r.cl.Call(ctx, "Svc", method, rt.arg, nil)
+				err = r.cl.Call(ctx, "Svc", method, arg, nil)
 			} else {
-				err = r.cl.Call(ctx, "Svc", method, rt.arg, &rt.reply)
+				err = r.cl.Call(ctx, "Svc", method, arg, replyPtr)
 			}
 			if err == nil {
-				rt.ret <- "ok:" + strconv.Itoa(rt.reply)
+				rt.ret <- "ok" // the reply value is read at the end of the run
 			} else {
 				rt.ret <- errClass(err)
 			}
@@ -432,7 +445,7 @@ func (r *rig) awaitRet(rt *callRT, i int, modelTake bool) {
 	}
 }
 
-func buildResp(e csmEvent) []byte {
+func buildResp(e csmEvent, bytesMode bool) []byte {
 	var h [12]byte
 	h[0] = 8
 	binary.BigEndian.PutUint64(h[4:], e.seq)
@@ -445,6 +458,9 @@ func buildResp(e csmEvent) []byte {
 		}
 	}
 	ser := byte(1) // JSON
+	if bytesMode {
+		ser = 0
+	}
 	if !e.code {
 		ser = 15
 	}
@@ -472,7 +488,7 @@ func (r *rig) barrier() error {
 	r.sentinel++
 	fid := 100000 + r.sentinel
 	e := csmEvent{op: "recv", fid: fid, seq: 424242, push: true, dec: true, code: true}
-	r.conn.rdCh <- buildResp(e)
+	r.conn.rdCh <- buildResp(e, r.bytesMode)
 	r.modelEvs = append(r.modelEvs, e.enc())
 	deadline := time.After(stepTimeout)
 	for {
@@ -531,12 +547,33 @@ func (r *rig) settle(before map[uint64]bool) {
 
 // exec runs one event on the implementation; returns false if the event is not enabled (skipped)
 func (r *rig) exec(id string, e csmEvent) (bool, error) {
+	// consecutive frames are fed back to back; the barrier (sentinel push) comes only before the
+	// next event of another kind, so that frames really follow each other in the reader
+	if e.op != "recv" {
+		if err := r.flushRecv(); err != nil {
+			return false, err
+		}
+	} else if !r.recvOpen {
+		r.recvBefore = r.pendingSet()
+	}
 	before := r.pendingSet()
 	ran, err := r.exec1(id, e)
-	if ran && err == nil && e.op != "ctx" {
+	if ran && err == nil && e.op != "ctx" && e.op != "recv" {
 		r.settle(before)
 	}
 	return ran, err
+}
+
+func (r *rig) flushRecv() error {
+	if !r.recvOpen {
+		return nil
+	}
+	r.recvOpen = false
+	if err := r.barrier(); err != nil {
+		return err
+	}
+	r.settle(r.recvBefore)
+	return nil
 }
 
 func (r *rig) exec1(id string, e csmEvent) (bool, error) {
@@ -568,6 +605,10 @@ func (r *rig) exec1(id string, e csmEvent) (bool, error) {
 		}
 		rt.seq = int64(r.nextSeq)
 		r.nextSeq++
+		if r.bytesMode { // []byte arguments encode at once: the next gate is the write
+			rt.phase = "enc"
+			return true, r.awaitWrite(rt)
+		}
 		rt.phase = "reg"
 		return true, waitOn(rt.arg.at, "the argument encoder")
 	case "rawreg":
@@ -638,14 +679,15 @@ func (r *rig) exec1(id string, e csmEvent) (bool, error) {
 		if !r.readerUp {
 			return false, nil
 		}
-		r.conn.rdCh <- buildResp(e)
+		if r.bytesMode {
+			e.dec = true // raw bytes always "decode"
+		}
+		r.conn.rdCh <- buildResp(e, r.bytesMode)
 		r.modelEvs = append(r.modelEvs, e.enc())
 		if !e.push {
 			r.fed[e.seq] = append(r.fed[e.seq], e)
 		}
-		if err := r.barrier(); err != nil {
-			return true, err
-		}
+		r.recvOpen = true
 		return true, nil
 	case "rderr":
 		if !r.readerUp {
@@ -653,7 +695,7 @@ func (r *rig) exec1(id string, e csmEvent) (bool, error) {
 		}
 		eof := e.eof
 		if e.cut > 0 {
-			fr := buildResp(csmEvent{op: "recv", seq: 0, payload: 5, dec: true, code: true})
+			fr := buildResp(csmEvent{op: "recv", seq: 0, payload: 5, dec: true, code: true}, r.bytesMode)
 			if e.cut >= len(fr) {
 				e.cut = len(fr) - 1
 			}
@@ -692,6 +734,9 @@ func (r *rig) exec1(id string, e csmEvent) (bool, error) {
 
 // finish drives the run to quiescence: close, terminate the reader, release every gate
 func (r *rig) finish(id string) error {
+	if err := r.flushRecv(); err != nil {
+		return err
+	}
 	if !r.closedC {
 		if _, err := r.exec(id, csmEvent{op: "close"}); err != nil {
 			return err
@@ -737,6 +782,15 @@ func (r *rig) finish(id string) error {
 	return nil
 }
 
+// replyOf reads the caller's reply value - at the end of the run, i.e. after every later frame
+func (r *rig) replyOf(c *callRT) int {
+	if r.bytesMode {
+		n, _ := strconv.Atoi(string(c.breply))
+		return n
+	}
+	return c.reply
+}
+
 func (r *rig) observe() string {
 	var parts []string
 	for i, c := range r.calls {
@@ -749,7 +803,7 @@ func (r *rig) observe() string {
 				case cl := <-c.done:
 					n++
 					if cl.Error == nil {
-						last = "ok:" + strconv.Itoa(c.reply)
+						last = "ok:" + strconv.Itoa(r.replyOf(c))
 					} else {
 						last = errClass(cl.Error)
 					}
@@ -769,6 +823,9 @@ func (r *rig) observe() string {
 			v := "-"
 			if c.hasRet {
 				v = c.retVal
+				if v == "ok" {
+					v = "ok:" + strconv.Itoa(r.replyOf(c))
+				}
 			}
 			parts = append(parts, "C:ret="+v)
 		case 'R':
@@ -821,10 +878,20 @@ func (r *rig) replyOracle(obs string) {
 	}
 }
 
-func csmRunOne(o *common.Out, id string, calls []csmCall, evs []csmEvent, finish bool) {
+func csmRunOne(o *common.Out, id string, calls []csmCall, evs []csmEvent, finish bool, bytesMode bool) {
 	abstract := csmEncode(calls, evs)
+	if bytesMode {
+		abstract = "B;" + abstract
+	} else {
+		abstract = "J;" + abstract
+	}
 	o.Begin(id, abstract)
-	r, err := newRig(id, calls)
+	if bytesMode {
+		o.Count("codec=raw-bytes")
+	} else {
+		o.Count("codec=json")
+	}
+	r, err := newRig(id, calls, bytesMode)
 	if err != nil {
 		o.Fail(id, "rig", err.Error(), abstract)
 		return
@@ -1030,8 +1097,9 @@ func permutations(k int) [][]int {
 
 func runCSM(prop string, r *common.Rand, tier string, o *common.Out, replay string) {
 	if replay != "" {
-		calls, evs := csmDecode(replay)
-		csmRunOne(o, "replay", calls, evs, true)
+		bm := strings.HasPrefix(replay, "B;")
+		calls, evs := csmDecode(replay[2:])
+		csmRunOne(o, "replay", calls, evs, true, bm)
 		return
 	}
 	id := 0
@@ -1187,8 +1255,8 @@ func runCSM(prop string, r *common.Rand, tier string, o *common.Out, replay stri
 		calls, evs := genSchedule(prop, r)
 		jobs = append(jobs, job{calls, evs})
 	}
-	for _, j := range jobs {
-		csmRunOne(o, next(), j.calls, j.evs, true)
+	for ji, j := range jobs {
+		csmRunOne(o, next(), j.calls, j.evs, true, ji%3 == 1)
 		o.Count(fmt.Sprintf("calls=%d", len(j.calls)))
 	}
 }
